@@ -22,6 +22,7 @@ RULE = ('cases = one admissible (start, radius, rotation, large_arc, sweep, end)
         'parser, and via reversed/cropped/rotated/translated/scaled (all constructions are judged by the Arc.__init__ '
         'monitor), evaluated at 7 parameters, differentiated to order 8 and approximated by cubics/quadratics; distinct by '
         'the full tuple; non-trivial if the construction monitor reached a verdict')
+RULE += '; arcs constructed in -1/-2 pairs (equal hashes, different geometry)'
 ASSUMPTIONS = ['vt/ref/arc.py implements F.6.5/F.6.6 correctly (math module only)',
                'arcs whose squares leave the normal double range are not generated',
                'where the centre is ill-conditioned (Lambda within 1e-6 of 1, or radii auto-enlarged so that the end points '
